@@ -54,6 +54,25 @@ def gen_range(rng, in_quantifier=None):
 
 
 def gen_case(rng, prop):
+    c = gen_case0(rng, prop)
+    if 'start' in c and 'end' in c and rng.random() < 0.3:
+        # other schedules / clocks over the SAME range were built earlier in this process (a schedule is specified as a
+        # function of its own arguments): siblings differing in kind, weekday or the pre/post flags
+        prior = []
+        for _ in range(rng.randint(1, 3)):
+            if c['kind'] == 'sim':
+                prior.append(dict(kind='sim', start=c['start'], end=c['end'], pre=rng.random() < 0.5, post=rng.random() < 0.5))
+            else:
+                kind = rng.choice(['weekly', 'weekly', 'daily', 'eom'])
+                q = dict(kind=kind, start=c['start'], end=c['end'], pre=rng.choice([c.get('pre', False), rng.random() < 0.5]))
+                if kind == 'weekly':
+                    q['wd'] = rng.choice(WDS)
+                prior.append(q)
+        c['prior'] = prior
+    return c
+
+
+def gen_case0(rng, prop):
     k = rng.random()
     if prop == 'C12':
         s, e = gen_range(rng)
@@ -84,6 +103,8 @@ def gen_case(rng, prop):
 
 def execute(case):
     k = case['kind']
+    for q in case.get('prior', []):
+        execute(q)
     try:
         if k == 'sim':
             eng = DailyBusinessDaySimulationEngine(ts(case['start']), ts(case['end']), pre_market=case['pre'], post_market=case['post'])
@@ -279,6 +300,8 @@ def run(prop, tier, seed, n_cases, corpus=()):
     mism, oracle = [], []
     for i, (c, r, m) in enumerate(zip(cases, reals, outs)):
         hist['kind:' + c['kind']] += 1
+        if c.get('prior'):
+            hist['after-sibling-schedules-over-the-same-range'] += 1
         hist['out:' + r['out']] += 1
         if 'start' in c and 'end' in c:
             hist['in-quantifier' if in_quantifier(c) else 'outside-quantifier'] += 1
